@@ -116,6 +116,9 @@ void ParallelAction::onResume() {
         if (action->state() == State::kPause)
             action->resume();
     }
+
+    //! 暂停期间可能有子动作的结束通知到达，在此补做判断
+    tryFinish();
 }
 
 void ParallelAction::onReset() {
@@ -141,16 +144,31 @@ void ParallelAction::pauseAllActions() {
 void ParallelAction::onChildFinished(int index, bool is_succ) {
     if (state() == State::kRunning) {
         finished_children_[index] = is_succ;
+        tryFinish();
 
-        if ((mode_ == Mode::kAnySucc && is_succ) ||
-            (mode_ == Mode::kAnyFail && !is_succ)) {
+    } else if (state() == State::kPause) {
+        //! 子动作的结束通知可能在自己被暂停之后才到达（通知是经 runNext() 派发的）。
+        //! 先记下结果，等恢复时再判断，否则该子动作的结果就丢了，自己永远结束不了
+        finished_children_[index] = is_succ;
+    }
+}
+
+bool ParallelAction::tryFinish() {
+    for (auto &item : finished_children_) {
+        if ((mode_ == Mode::kAnySucc && item.second) ||
+            (mode_ == Mode::kAnyFail && !item.second)) {
             stopAllActions();
             finish(true);
-
-        } else if (finished_children_.size() == children_.size()) {
-            finish(true);
+            return true;
         }
     }
+
+    if (finished_children_.size() == children_.size()) {
+        finish(true);
+        return true;
+    }
+
+    return false;
 }
 
 void ParallelAction::onChildBlocked(int, const Reason &why, const Trace &trace) {
